@@ -26,6 +26,8 @@ var c20NodeIndexers = map[string]string{
 }
 
 func c20(p *core.Program, r *core.Report) {
+	r.Rule("R4", "ownership is a function of the membership: the placement functions of cluster (partition, partitionNodes, shardNodes, ShardNodes, ownsShard, containsShards) read no cluster field other than nodes, ReplicaN, partitionN, Hasher and the mutex, and write none")
+	c20OwnershipIsAFunction(p, r)
 	r.Rule("R1", "sorted membership: every function that appends to cluster.nodes sorts the list by node ID (sort.Sort(byID(c.nodes))) before any normal return, so the ring order depends only on the IDs, not on join order; setStatic (static host lists, excluded by the statement) is the single frozen exception")
 	r.Rule("R2", "single source of ownership: the consistent hash (Hasher.Hash) is consulted only by partitionNodes and the partition hash (fnv) only by partition; every ownership predicate used by writes, anti-entropy and cleanup (shardNodes, ShardNodes, ownsShard, containsShards) reaches partitionNodes; no other function picks members of cluster.nodes by position")
 	r.Rule("R3", "replica clamp: partitionNodes is abstractly executed for every ordering of {ReplicaN, len(nodes), 0, 1} with ReplicaN >= 0 and len(nodes) >= 1; the number of owners must be min(max(ReplicaN, 1), len(nodes)), and owners are taken at consecutive ring positions modulo len(nodes) (distinct because the count never exceeds len(nodes))")
